@@ -267,8 +267,12 @@ func c05Paired(c *Ctx) {
 		} else {
 			st := sts[0]
 			kind, _, pos := classifyListStore(w, st.Val, "RoundRobinBackend.backends")
-			c.check(kind == "delete-one" && pos != nil && strip(pos) == strip(loop.Idx), rule, "RemoveBackend/list-delete-one", w.ipos(st), "delete-one at the matching position", "the list store is not backends = append(backends[0:i], backends[i+1:]...) at the index of the matching element ("+kind+")")
-			same := func(a Atom) bool {
+			same := func(a Atom) bool { return false }
+			// the position is the loop index itself, or a local that holds -1 until an iteration whose element matches
+			// stores its index there (the deletion then runs after the walk, under position != -1)
+			var found *ssa.Phi
+			posOK := pos != nil && strip(pos) == strip(loop.Idx)
+			sameReal := func(a Atom) bool {
 				if a.Kind != "eq" {
 					return false
 				}
@@ -283,24 +287,79 @@ func c05Paired(c *Ctx) {
 				}
 				return m(a.X, a.Y) || m(a.Y, a.X) || id(a.X, a.Y) || id(a.Y, a.X)
 			}
-			c.check(w.requires(f, st, same, true), rule, "RemoveBackend/list-delete-matching", w.ipos(st), "the element removed is the one whose address equals the argument", "the list deletion is not guarded by address == element.GetAddress()")
-			// nothing else may suppress the deletion of a matching element
-			inIter := w.under(assumeAtom(same, true))
-			mn, mx, _ := countSites(blockStart(loop.Body), func(b *ssa.BasicBlock, i int) bool { return inIter(b, i) && b != loop.Header }, isInstr(st))
-			c.check(mn == 1 && mx == 1, rule, "RemoveBackend/list-delete-unconditional", w.ipos(st), "a matching element is always removed from the list", fmt.Sprintf("for the matching element the list deletion executes min=%d max=%d times: an extra condition leaves a removed backend in the rotation", mn, mx))
-			// Close of that element
-			nClose := 0
-			for _, cs := range w.callsIn(f, "Backend.Close") {
-				if loop.isElem(cs.In.Common().Value) || strip(cs.In.Common().Value) == ssa.Value(extractOf(lk, 0)) {
-					nClose++
-					mn, mx, _ := countSites(blockStart(loop.Body), func(b *ssa.BasicBlock, i int) bool { return inIter(b, i) && b != loop.Header }, isInstr(cs.In))
-					if strip(cs.In.Common().Value) == ssa.Value(extractOf(lk, 0)) {
-						mn, mx, _ = countSites(at(lk), registered, isInstr(cs.In))
+			same = sameReal
+			if found == nil && pos != nil && !posOK {
+				// evaluate the deferred-position form now that `same` is known
+				if ph, ok := strip(pos).(*ssa.Phi); ok && !loop.inLoop(ph.Block()) {
+					okPhi, nIdx := true, 0
+					for i, e := range ph.Edges {
+						if k, isK := constInt(e); isK && k == -1 {
+							continue
+						}
+						if strip(e) == strip(loop.Idx) {
+							nIdx++
+							pred := ph.Block().Preds[i]
+							if !w.requires(f, pred.Instrs[len(pred.Instrs)-1], same, true) {
+								okPhi = false
+							}
+							continue
+						}
+						okPhi = false
 					}
-					c.check(mn == 1 && mx == 1, rule, "RemoveBackend/close", w.ipos(cs.In), "the removed backend is closed", fmt.Sprintf("the removed backend is closed min=%d max=%d times", mn, mx))
+					if okPhi && nIdx > 0 {
+						found = ph
+					}
 				}
 			}
-			c.check(nClose == 1, rule, "RemoveBackend/close-site", w.pos(f.Pos()), "one Close site for the removed element", fmt.Sprintf("expected one Close of the removed backend, found %d", nClose))
+			c.check(kind == "delete-one" && (posOK || found != nil), rule, "RemoveBackend/list-delete-one", w.ipos(st), "delete-one at the matching position", "the list store is not backends = append(backends[0:i], backends[i+1:]...) at the index of the matching element ("+kind+")")
+			if found != nil {
+				// deferred form: the deletion runs after the walk exactly when a matching index was recorded, on no other condition
+				hit := func(a Atom) bool { return a.Kind == "eqk" && a.K == -1 && strip(a.X) == ssa.Value(found) }
+				c.check(w.requires(f, st, hit, false), rule, "RemoveBackend/list-delete-matching", w.ipos(st), "the element removed is the one whose address equals the argument", "the list deletion is not guarded by a recorded matching position")
+				mn, mx, _ := countSites(blockStart(found.Block()), w.under(assumeAtom(hit, false)), isInstr(st))
+				// the first match ends the walk (break) so the recorded index is that of the first matching element
+				ends := !canReach(blockStart(loop.Body), w.under(assumeAtom(same, true)), func(in ssa.Instruction) bool { return in.Block() == loop.Header }, nil)
+				c.check(mn == 1 && mx == 1 && ends, rule, "RemoveBackend/list-delete-unconditional", w.ipos(st), "a matching element is always removed from the list", fmt.Sprintf("after a match the list deletion executes min=%d max=%d times (walk ends at the match: %v): an extra condition leaves a removed backend in the rotation", mn, mx, ends))
+				nClose := 0
+				for _, cs := range w.callsIn(f, "Backend.Close") {
+					recv := strip(cs.In.Common().Value)
+					okRecv := recv == ssa.Value(extractOf(lk, 0))
+					if a, ok := isDeref(recv); ok {
+						if ia, ok := a.(*ssa.IndexAddr); ok && strip(ia.Index) == ssa.Value(found) {
+							if _, isL := isLoadOf(ia.X, "RoundRobinBackend.backends"); isL {
+								okRecv = true
+							}
+						}
+					}
+					if okRecv {
+						nClose++
+						mn, mx, _ := countSites(blockStart(found.Block()), w.under(assumeAtom(hit, false)), isInstr(cs.In))
+						// closed before the element is cut out of the list
+						c.check(mn == 1 && mx == 1 && (recv == ssa.Value(extractOf(lk, 0)) || mustPrecede(f, []ssa.Instruction{cs.In}, st, nil)), rule, "RemoveBackend/close", w.ipos(cs.In), "the removed backend is closed", fmt.Sprintf("the removed backend is closed min=%d max=%d times", mn, mx))
+					}
+				}
+				c.check(nClose == 1, rule, "RemoveBackend/close-site", w.pos(f.Pos()), "one Close site for the removed element", fmt.Sprintf("expected one Close of the removed backend, found %d", nClose))
+			}
+			if found == nil {
+				c.check(w.requires(f, st, same, true), rule, "RemoveBackend/list-delete-matching", w.ipos(st), "the element removed is the one whose address equals the argument", "the list deletion is not guarded by address == element.GetAddress()")
+				// nothing else may suppress the deletion of a matching element
+				inIter := w.under(assumeAtom(same, true))
+				mn, mx, _ := countSites(blockStart(loop.Body), func(b *ssa.BasicBlock, i int) bool { return inIter(b, i) && b != loop.Header }, isInstr(st))
+				c.check(mn == 1 && mx == 1, rule, "RemoveBackend/list-delete-unconditional", w.ipos(st), "a matching element is always removed from the list", fmt.Sprintf("for the matching element the list deletion executes min=%d max=%d times: an extra condition leaves a removed backend in the rotation", mn, mx))
+				// Close of that element
+				nClose := 0
+				for _, cs := range w.callsIn(f, "Backend.Close") {
+					if loop.isElem(cs.In.Common().Value) || strip(cs.In.Common().Value) == ssa.Value(extractOf(lk, 0)) {
+						nClose++
+						mn, mx, _ := countSites(blockStart(loop.Body), func(b *ssa.BasicBlock, i int) bool { return inIter(b, i) && b != loop.Header }, isInstr(cs.In))
+						if strip(cs.In.Common().Value) == ssa.Value(extractOf(lk, 0)) {
+							mn, mx, _ = countSites(at(lk), registered, isInstr(cs.In))
+						}
+						c.check(mn == 1 && mx == 1, rule, "RemoveBackend/close", w.ipos(cs.In), "the removed backend is closed", fmt.Sprintf("the removed backend is closed min=%d max=%d times", mn, mx))
+					}
+				}
+				c.check(nClose == 1, rule, "RemoveBackend/close-site", w.pos(f.Pos()), "one Close site for the removed element", fmt.Sprintf("expected one Close of the removed backend, found %d", nClose))
+			}
 		}
 		// map delete and notification exactly once when registered
 		var del, notify ssa.Instruction
